@@ -79,6 +79,15 @@ impl Participant {
                         })),
                     }
                 }
+                ["INIT", from] => {
+                    // the regions later commands refer to exist from the start, so that no command
+                    // issued while a reader is held has to allocate (documented misuse)
+                    let db = self.db(from).ok_or("no such db")?;
+                    for n in ["r0", "r1", "r2"] {
+                        db.create_region_if_needed(n).map_err(|e| e.to_string())?;
+                    }
+                    Ok("OK".into())
+                }
                 ["CLONE", id, from] => {
                     let db = self.db(from).ok_or("no such db")?;
                     self.holders.insert(id.to_string(), Holder::Db(db));
@@ -86,7 +95,7 @@ impl Participant {
                 }
                 ["REGIONDB", id, from, name] => {
                     let db = self.db(from).ok_or("no such db")?;
-                    let region = db.create_region_if_needed(name).map_err(|e| e.to_string())?;
+                    let region = db.get_region(name).ok_or("no such region")?;
                     let derived = region.db();
                     drop(region);
                     drop(db);
@@ -95,7 +104,7 @@ impl Participant {
                 }
                 ["READER", id, from, name] => {
                     let db = self.db(from).ok_or("no such db")?;
-                    let region = db.create_region_if_needed(name).map_err(|e| e.to_string())?;
+                    let region = db.get_region(name).ok_or("no such region")?;
                     let reader = region.create_reader();
                     self.holders.insert(id.to_string(), Holder::Reader(reader));
                     Ok("OK".into())
@@ -111,7 +120,7 @@ impl Participant {
                 }
                 ["WRITE", from, name, n, seed] => {
                     let db = self.db(from).ok_or("no such db")?;
-                    let region = db.create_region_if_needed(name).map_err(|e| e.to_string())?;
+                    let region = db.get_region(name).ok_or("no such region")?;
                     let bytes = pattern(seed.parse().unwrap_or(1), n.parse().unwrap_or(1));
                     region.truncate_write(0, &bytes).map_err(|e| e.to_string())?;
                     Ok("OK".into())
@@ -162,7 +171,7 @@ pub fn child_main() -> i32 {
 struct Remote {
     child: Child,
     stdin: ChildStdin,
-    stdout: BufReader<ChildStdout>,
+    replies: std::sync::mpsc::Receiver<String>,
 }
 
 impl Remote {
@@ -170,17 +179,35 @@ impl Remote {
         let exe = std::env::current_exe()?;
         let mut child = Command::new(exe).arg("proc-child").stdin(Stdio::piped()).stdout(Stdio::piped()).stderr(Stdio::null()).spawn()?;
         let stdin = child.stdin.take().unwrap();
-        let stdout = BufReader::new(child.stdout.take().unwrap());
-        Ok(Self { child, stdin, stdout })
+        let stdout: ChildStdout = child.stdout.take().unwrap();
+        let (tx, rx) = std::sync::mpsc::channel();
+        std::thread::spawn(move || {
+            for line in BufReader::new(stdout).lines() {
+                match line {
+                    Ok(l) => {
+                        if tx.send(l).is_err() {
+                            break;
+                        }
+                    }
+                    Err(_) => break,
+                }
+            }
+        });
+        Ok(Self { child, stdin, replies: rx })
     }
+    /// One command, one reply line. A child that does not answer within 60 s is killed and the
+    /// reply is "TIMEOUT" (treated as inconclusive by the caller, never as a verdict).
     fn exec(&mut self, line: &str) -> String {
         if writeln!(self.stdin, "{line}").is_err() || self.stdin.flush().is_err() {
             return "DEAD".into();
         }
-        let mut reply = String::new();
-        match self.stdout.read_line(&mut reply) {
-            Ok(0) | Err(_) => "DEAD".into(),
-            Ok(_) => reply.trim().to_string(),
+        match self.replies.recv_timeout(Duration::from_secs(60)) {
+            Ok(r) => r.trim().to_string(),
+            Err(std::sync::mpsc::RecvTimeoutError::Timeout) => {
+                let _ = self.child.kill();
+                "TIMEOUT".into()
+            }
+            Err(_) => "DEAD".into(),
         }
     }
 }
@@ -240,6 +267,10 @@ fn run_history(rng: &mut Rng, n_remote: usize, steps: usize) -> HistOutcome {
             let cmd: String = $cmd;
             let reply = if $p == 0 { local.exec(&cmd) } else { remotes[$p - 1].exec(&cmd) };
             out.log.push(format!("P{} {} -> {}", $p, cmd.replace(&dir_s, "<dir>"), reply));
+            if reply == "TIMEOUT" || reply == "DEAD" {
+                out.failed = Some(("inconclusive|child".into(), format!("child process P{} did not answer '{}' ({reply})", $p, cmd.replace(&dir_s, "<dir>"))));
+                return out;
+            }
             reply
         }};
     }
@@ -290,6 +321,10 @@ fn run_history(rng: &mut Rng, n_remote: usize, steps: usize) -> HistOutcome {
                     }
                     live[p].insert(id.clone());
                     dbs[p].insert(id.clone());
+                    let init = send!(p, format!("INIT {id}"));
+                    if init != "OK" {
+                        fail!("harness|init", init);
+                    }
                     if let Some(want) = &flushed_digest {
                         let got = send!(p, format!("DIGEST {id}"));
                         if got != format!("OK {want}") {
@@ -472,6 +507,10 @@ pub fn check_c18(ctx: &Ctx) -> i32 {
             samples.push(json!({"processes": n_remote + 1, "commands": o.log.iter().take(30).collect::<Vec<_>>()}));
         }
         if let Some((sig, what)) = o.failed {
+            if sig.starts_with("inconclusive|") {
+                report.inconclusive(what);
+                break;
+            }
             report.violation(ctx, Violation { sig: format!("C18|{sig}"), what, detail: json!({"processes": n_remote + 1, "history": o.log}) });
         }
     }
